@@ -108,6 +108,19 @@ func caseVariants(name string) []string {
 	return out
 }
 
+// allowed: is the registered name within the allow-list (empty list = everything)?
+func allowed(allow []string, name, prefix string) bool {
+	if len(allow) == 0 {
+		return true
+	}
+	for _, a := range allow {
+		if prefix+a == name {
+			return true
+		}
+	}
+	return false
+}
+
 func c16Instrumented(ctx *Ctx, i int, rng *rand.Rand) {
 	recv := &ProbeService{}
 	table := methodTable(recv)
@@ -203,6 +216,29 @@ func c16Instrumented(ctx *Ctx, i int, rng *rand.Rand) {
 					cs = append(cs, g.coq)
 				}
 				probe(name, "["+strings.Join(js, ",")+"]", "(PArray "+cList(cs)+")")
+			}
+			// every JSON kind as the first surplus argument (alone, and followed by one more)
+			for _, surplus := range jkinds {
+				for tail := 0; tail < 2; tail++ {
+					var js, cs []string
+					for k := range m.Args {
+						g := goodFor(m.Args[k])
+						js = append(js, g.json)
+						cs = append(cs, g.coq)
+					}
+					js, cs = append(js, surplus.json), append(cs, surplus.coq)
+					if tail == 1 {
+						js, cs = append(js, jkinds[1].json), append(cs, jkinds[1].coq)
+					}
+					raw := "[" + strings.Join(js, ",") + "]"
+					nb := len(probes)
+					probe(name, raw, "(PArray "+cList(cs)+")")
+					if last := probes[nb]; last.Ran != 0 || (last.Code != jsonrpc2.ErrCodeInvalidParams && last.Code != jsonrpc2.ErrCodeMethodNotFound) {
+						if allowed(allow, name, prefix) { // (whether the name should be registered at all is the model's business)
+							mon = append(mon, fmt.Sprintf("c16-surplus-accepted: %s takes %d parameters; called with %s it answered with code %d and the method ran %d time(s), instead of invalid-params without running", name, len(m.Args), raw, last.Code, last.Ran))
+						}
+					}
+				}
 			}
 			// every JSON kind at every position, others acceptable
 			for pos := range m.Args {
